@@ -37,6 +37,17 @@ size_t verif_keylen;  /* length of the NUL-terminated key handed to key2hash */
 int verif_last_count; /* value returned by the last ep_speech_count() */
 int verif_vad_rate;   /* sample rate reported by the (assumed) VAD */
 
+
+/* ghost hooks named by always-injected ghost statements in src/fsg_search.c (word-arc producers); only the word-arc
+ * harness (harness/C01_wordarcs.c, which defines SSW_WORDARC before including this file) gives them a meaning */
+#ifndef SSW_WORDARC
+#define VERIF_PT_PRE(child) ((void)0)
+#define VERIF_PT_POST(child, hmm, thresh, nf) ((void)0)
+#define VERIF_WT_ROOTS(d) ((void)0)
+#define VERIF_WT_PRE(root, e, bpidx) ((void)0)
+#define VERIF_WT_POST(root, e, score, lc, rc, bpidx, thresh, nf) ((void)0)
+#endif
+
 #if defined(SSW_CBMC)
 /* "the process is never terminated" becomes an obligation of every group */
 #ifndef SSW_NO_STUB_DEFS
